@@ -29,7 +29,7 @@ def run_det(ctx, seed, n, runs, subsets, race_runs):
 def run(ctx):
     failures = vlib.proof_stage(ctx, "theories/Props/C06.v", ["theories/Oblig/O06.v"])
     quick = ctx.tier == "quick"
-    rounds = [(12, 8, 8, 3)] * (2 if quick else 40)
+    rounds = [(12, 8, 9, 3)] * (2 if quick else 40)
     tot = {"packages": 0, "runs": 0, "subsets": 0, "race_runs": 0}
     for i, (n, runs, subs, rr) in enumerate(rounds):
         cmd, mism, st = run_det(ctx, ctx.seed * 100 + i, n, runs, subs, rr)
